@@ -106,6 +106,17 @@ def _worker_b(args: T.Tuple[int, int, int]) -> T.List[T.Dict[str, T.Any]]:
             ob = run_parser(texts, wd, same_dir)
             ob.update({'id': f'B:{j}', 'm': 'B', 'files': files, 'text': texts})
             out.append(ob)
+            # every fourth case also with one file cut in two at a section boundary (the rule book says: same meaning)
+            cuts = [(f, k) for f in range(len(files)) for k in range(1, len(files[f]))]
+            if j % 4 == 0 and cuts:
+                rnd = random.Random(seed * 7919 + j * 31 + 6)
+                f, k = rnd.choice(cuts)
+                files2 = files[:f] + [files[f][:k], files[f][k:]] + files[f + 1:]
+                st = G.Style(rnd, odd=True)
+                texts2 = [G.render_file(x, st) for x in files2]
+                ob = run_parser(texts2, wd, same_dir)
+                ob.update({'id': f'B:{j}s', 'm': 'B', 'files': files2, 'text': texts2})
+                out.append(ob)
     return out
 
 
